@@ -13,6 +13,7 @@ import os
 import pickle
 import subprocess
 import sys
+import time
 
 import core
 from core import Result, quiet
@@ -21,6 +22,7 @@ import impl
 import pipeline
 import pilio
 import snapshot as snapmod
+import pickleio
 
 LEVEL = "proof"
 LEVEL_NOTE = ("PARTIAL: that pickle.load(pickle.dump(x)) reproduces the object graph in another process is Python-runtime behaviour no Lean "
@@ -67,6 +69,213 @@ def snap_names(tree, signals_too=True):
     return out
 
 
+# ======================================================================================================================
+# [pickle model]  pickle INSIDE the model (lean/PepperModel/Pickle.lean, theorems PepperProps/C16Pickle.lean)
+# ----------------------------------------------------------------------------------------------------------------------
+# Per compiled program, on the REAL bytes of out.save and two REAL object graphs:
+#   LOAD  canon(Lean VM run on the opcodes of the real bytes)  =  canon(walk of the in-memory system)
+#                                                              =  canon(walk of pickle.load(out.save) in a FRESH process)
+#         all three canonical forms are computed by the Lean `canon` (driver ops pickle-run / pickle-canon); the walks are
+#         id()-based (harness/pickleio.py) and see instances exactly as the pickler does (`__reduce_ex__(4)`).
+#         in-memory ≠ reloaded            → C16 VIOLATION (the property itself: same graph incl. sharing, complement links)
+#         Lean VM ≠ reloaded (only)       → correspondence break `PickleVM` (the model is wrong)
+#   DUMP  Lean `dump`(walk of the in-memory system) = the real opcode list, modulo PROTO / FRAME and short / long spellings
+#         (→ correspondence break `PickleDump`): pins the abstract pickler of theorem `roundtrip` to CPython's.
+#   T2    `pickle-roundtrip` on the in-memory heap: canon(run(dump h r)) = canon h r evaluated (→ `PickleRoundtrip`).
+# Plus directed Python objects (pickleio-independent of the compiler) that reach the opcodes and batch boundaries real
+# .save files do not: sets, frozensets, recursive tuples, bytes, big / negative ints, floats, lists of 1 / 1000 / 1001 / 2001
+# elements, dicts of 1 / 1000 / 1001 pairs, reduce values with list items, shared and cyclic containers.
+# ======================================================================================================================
+
+class PickleTie:
+    FLUSH = 12
+
+    def __init__(self, res, drv):
+        self.res, self.drv = res, drv
+        self.pending = []
+        self.census = {}
+        self.tot = {"programs": 0, "ops": 0, "bytes": 0, "heap_cells": 0, "reachable_cells": 0, "instances": 0, "strings": 0,
+                    "shared_refs": 0, "shared_strings": 0, "cyclic_components": 0, "cells_on_cycles": 0, "vm_cells_allocated": 0}
+        self.census_directed = {}
+        self.seconds = 0.0
+        self.classes = {}
+        self.setstate = set()
+        self.key_kinds = {}
+
+    def walk_memory(self, system):
+        t0 = time.time()
+        try:
+            return pickleio.walk(system)
+        except pickleio.Unmodelled as e:
+            self.res.count("pickle:unmodelled-memory:" + str(e)[:60])
+            return None
+        finally:
+            self.seconds += time.time() - t0
+
+    def add(self, inp, data, mem, reloaded):
+        if self.drv is None or mem is None:
+            return
+        try:
+            ops = pickleio.ops_of(data, self.census)
+        except pickleio.Unmodelled as e:
+            self.res.corr_breaks.append({"name": "PickleOps", "input": inp, "model": "no constructor", "impl": str(e)})
+            return
+        self.pending.append((inp, len(data), ops, mem, (reloaded["heap"], reloaded["root"], reloaded["info"])))
+        if len(self.pending) >= self.FLUSH:
+            self.flush()
+
+    def flush(self):
+        pend, self.pending = self.pending, []
+        if not pend:
+            return
+        t0 = time.time()
+        try:
+            self._flush(pend)
+        finally:
+            self.seconds += time.time() - t0
+
+    def _flush(self, pend):
+        reqs = []
+        for inp, nbytes, ops, (hm, rm, im), (hr, rr, ir) in pend:
+            reqs += [{"op": "pickle-run", "ops": ops, "setstate": ir["setstate"]},
+                     {"op": "pickle-canon", "heap": hm, "root": rm},
+                     {"op": "pickle-canon", "heap": hr, "root": rr},
+                     {"op": "pickle-dump", "heap": hm, "root": rm},
+                     {"op": "pickle-roundtrip", "heap": hm, "root": rm}]
+        got = self.drv.call_many(reqs)
+        res = self.res
+        for k, (inp, nbytes, ops, (hm, rm, im), (hr, rr, ir)) in enumerate(pend):
+            vm, cm, cr, dm, rt = got[5 * k: 5 * k + 5]
+            res.disagreements_checked += 4
+            cmd = "pepper-compiler %s; pickle.load(open('out.save','rb')) in a new process" % inp.get("entry")
+            for tag, g in (("in-memory", cm), ("reloaded", cr)):
+                if "ok" not in g:
+                    res.corr_breaks.append({"name": "PickleCanon", "input": inp, "model": json.dumps(g), "impl": tag + " heap"})
+            if "ok" not in cm or "ok" not in cr:
+                continue
+            same_graph = cm["ok"] == cr["ok"]
+            if not same_graph:
+                res.violations.append({"what": "the object graph reloaded from out.save in a fresh process is not isomorphic to the in-memory system "
+                                               "(objects, attribute values, sharing, complement links): " + first_diff(cm["ok"], cr["ok"]),
+                                       "input": inp, "sig": "C16:pickle-graph", "cmd": cmd})
+            if vm.get("ok") != cr["ok"]:
+                res.corr_breaks.append({"name": "PickleVM", "input": inp, "model": json.dumps(vm.get("err") or first_diff(vm["ok"], cr["ok"])),
+                                        "impl": "reloaded graph"})
+            real = pickleio.strip_framing(ops)
+            if same_graph and dm.get("ok") != real:
+                res.corr_breaks.append({"name": "PickleDump", "input": inp, "model": json.dumps(dm.get("err") or first_op_diff(dm["ok"], real)),
+                                        "impl": "pickletools.genops(out.save)"})
+            if rt.get("ok") is not True:
+                res.corr_breaks.append({"name": "PickleRoundtrip", "input": inp, "model": json.dumps(rt), "impl": "-"})
+            st_ = pickleio.stats(hm, rm)
+            t = self.tot
+            t["programs"] += 1; t["ops"] += len(ops); t["bytes"] += nbytes; t["heap_cells"] += len(hm)
+            t["reachable_cells"] += st_["cells"]; t["instances"] += st_["instances"]; t["strings"] += st_["strings"]
+            t["shared_refs"] += st_["shared"]; t["shared_strings"] += st_["shared_strings"]
+            t["cyclic_components"] += st_["cyclic_components"]; t["cells_on_cycles"] += st_["cells_on_cycles"]
+            t["vm_cells_allocated"] += vm.get("heap", 0)
+            for info in (im, ir):
+                for c_, n_ in info["classes"].items():
+                    self.classes[c_] = self.classes.get(c_, 0) + n_
+                for c_ in info["setstate"]:
+                    self.setstate.add(".".join(c_))
+                for c_, n_ in info["dict_key_kinds"].items():
+                    self.key_kinds[c_] = self.key_kinds.get(c_, 0) + n_
+
+    def directed(self, tier):
+        """objects outside the compiler that reach the remaining opcodes and the batch boundaries of the C pickler"""
+        import pickle
+        if self.drv is None:
+            return
+        cases = pickleio.directed_objects(big=True)
+        reqs, meta = [], []
+        for name, obj, reload_too, proto2 in cases:
+            if proto2:
+                # older protocol: GLOBAL-free objects only; reaches BINPUT / BINGET-after-PUT / BINUNICODE / LONG1 / TUPLE spellings
+                try:
+                    reqs2 = [{"op": "pickle-run", "ops": pickleio.ops_of(pickle.dumps(obj, 2), self.census_directed)}]
+                    h2, r2, _ = pickleio.walk(obj)
+                    reqs2.append({"op": "pickle-canon", "heap": h2, "root": r2})
+                    g2 = self.drv.call_many(reqs2)
+                    self.res.disagreements_checked += 1
+                    if "ok" not in g2[0] or g2[0].get("ok") != g2[1].get("ok"):
+                        self.res.corr_breaks.append({"name": "PickleDirected", "input": name + " (protocol 2)", "model": json.dumps(g2[0])[:300],
+                                                     "impl": "walked original"})
+                except pickleio.Unmodelled as e:
+                    self.res.corr_breaks.append({"name": "PickleDirected", "input": name + " (protocol 2)", "model": "unmodelled", "impl": str(e)})
+            data = pickle.dumps(obj)
+            try:
+                ops = pickleio.ops_of(data, self.census_directed)
+                h0, r0, i0 = pickleio.walk(obj)
+                h1, r1, i1 = pickleio.walk(pickle.loads(data))
+            except pickleio.Unmodelled as e:
+                self.res.corr_breaks.append({"name": "PickleDirected", "input": name, "model": "unmodelled", "impl": str(e)})
+                continue
+            reqs += [{"op": "pickle-run", "ops": ops, "setstate": i0["setstate"]}, {"op": "pickle-canon", "heap": h0, "root": r0},
+                     {"op": "pickle-canon", "heap": h1, "root": r1}, {"op": "pickle-dump", "heap": h0, "root": r0},
+                     {"op": "pickle-roundtrip", "heap": h0, "root": r0}]
+            meta.append((name, ops, reload_too))
+        got = self.drv.call_many(reqs)
+        for k, (name, ops, reload_too) in enumerate(meta):
+            vm, c0, c1, dm, rt = got[5 * k: 5 * k + 5]
+            self.res.count("pickle:directed-object")
+            self.res.disagreements_checked += 4
+            bad = []
+            if "ok" not in c0 or vm.get("ok") != c0.get("ok"):
+                bad.append("VM(real bytes) vs walked original: " + (vm.get("err") or c0.get("err") or first_diff(vm["ok"], c0["ok"])))
+            if reload_too and c1.get("ok") != c0.get("ok"):
+                bad.append("walked pickle.loads vs walked original")
+            if dm.get("ok") != pickleio.strip_framing(ops):
+                bad.append("dump vs real opcodes: " + (dm.get("err") or first_op_diff(dm["ok"], pickleio.strip_framing(ops))))
+            if rt.get("ok") is not True:
+                bad.append("roundtrip: %s" % json.dumps(rt))
+            if bad:
+                self.res.corr_breaks.append({"name": "PickleDirected", "input": name, "model": "; ".join(bad)[:900], "impl": "pickle.dumps / pickle.loads"})
+
+    def finish(self, tier):
+        self.flush()
+        t0 = time.time()
+        self.directed(tier)
+        self.seconds += time.time() - t0
+        res = self.res
+        for k, v in self.tot.items():
+            res.count("pickle:" + k, v)
+        for k, v in sorted(self.census.items()):
+            res.count("pickle:opcode:" + k, v)
+        res.extra["pickle_model"] = {
+            "totals": self.tot, "seconds_spent_in_this_section": round(self.seconds, 1),
+            "opcode_census_of_the_save_files": dict(sorted(self.census.items())),
+            "opcode_census_of_the_directed_objects": dict(sorted(self.census_directed.items())), "pickled_classes": dict(sorted(self.classes.items())),
+            "classes_with___setstate__": sorted(self.setstate), "dict_key_types": self.key_kinds,
+            "obligations_per_program": ["canon(LeanVM(real bytes)) = canon(reloaded graph, fresh process)", "canon(in-memory graph) = canon(reloaded graph)",
+                                        "Lean dump(in-memory heap) = real opcode list modulo PROTO/FRAME/spelling",
+                                        "canon(run(dump h r)) = canon h r evaluated on the in-memory heap"]}
+        if self.setstate:
+            res.notes.append("pickled classes defining __setstate__ (BUILD on them is outside the model): %s" % sorted(self.setstate))
+
+
+def first_diff(a, b):
+    """first place where two canonical forms (driver JSON) differ, as a short text"""
+    if not isinstance(a, dict) or not isinstance(b, dict):
+        return "no canonical form"
+    if a.get("root") != b.get("root"):
+        return "roots differ"
+    ca, cb = a.get("cells", []), b.get("cells", [])
+    for i, (x, y) in enumerate(zip(ca, cb)):
+        if x != y:
+            return "cell %d (first-visit order): %s vs %s" % (i, json.dumps(x)[:160], json.dumps(y)[:160])
+    return "%d vs %d reachable cells" % (len(ca), len(cb))
+
+
+def first_op_diff(a, b):
+    for i, (x, y) in enumerate(zip(a, b)):
+        if x != y:
+            return "op %d: model %s, real %s" % (i, json.dumps(a[max(0, i - 2): i + 2]), json.dumps(b[max(0, i - 2): i + 2]))
+    return "%d vs %d ops" % (len(a), len(b))
+
+# ====================================================================================================== end [pickle model]
+
+
 def run(st, tier, seed):
     from peppercompiler import compiler as pc
     from peppercompiler import finish as pf
@@ -77,6 +286,7 @@ def run(st, tier, seed):
     rng = core.rng_for(seed, "c16")
     n = 25 if tier == "quick" else 1000
     drv = core.Driver() if st.driver_ok else None
+    pk = PickleTie(res, drv)
     reqs, meta = [], []
     for i in range(n):
         for _ in range(rng.randint(0, 5) if rng.random() < 0.6 else 0):   # history of earlier compiles
@@ -133,6 +343,7 @@ def run(st, tier, seed):
                         for type_, name_, fseq in pc.load_fixed("fixed.fix"):
                             mem.seqs[name_].fix_seq(fseq)
                 s_mem = snapmod.snap(mem)
+                pk_mem = pk.walk_memory(mem)          # [pickle model] the graph the pickler sees, before finishing mutates it
                 with quiet():
                     pf.apply_design(mem, read_design("out.mfe"))
                 mem_lines = ["# Sequences"] + ["sequence %s = %s" % (k, v.seq) for k, v in mem.seqs.items()] + \
@@ -141,12 +352,15 @@ def run(st, tier, seed):
             finally:
                 os.chdir(cwd)
             # (2) reloaded in a fresh process
-            r = sub([os.path.join(core.HERE, "snapshot.py"), "out.save"], d)
+            r = sub([os.path.join(core.HERE, "pickleio.py"), "out.save", "--snapshot"], d)
             if r.returncode != 0:
                 res.violations.append({"what": "the .save file cannot be reloaded in a fresh process", "input": inp, "observed": r.stderr[-500:],
                                        "sig": "C16:reload", "cmd": "python -c 'from peppercompiler.compiler import load; load(\"out.save\")'"})
                 continue
-            s_re = json.loads(r.stdout)
+            reloaded = json.loads(r.stdout)
+            s_re = reloaded["snapshot"]
+            with open(os.path.join(d, "out.save"), "rb") as f_:
+                pk.add(inp, f_.read(), pk_mem, reloaded)          # [pickle model] three-way graph comparison, see PickleTie
             cmd = "pepper-compiler %s; reload out.save in a new process" % b.entry
             if s_re["problems"] or s_mem["problems"]:
                 res.violations.append({"what": "sharing / complement links broken: %s" % (s_re["problems"] + s_mem["problems"])[:3], "input": inp,
@@ -205,6 +419,7 @@ def run(st, tier, seed):
                 if s_re["problems"] or pn != sn:
                     res.violations.append({"what": "reserved-name program accepted and its saved state differs from its .pil: %s" % (s_re["problems"] or "names/lengths")[:200],
                                            "input": {"files": fb.texts, "entry": "t"}, "sig": "C16:reserved-name:names", "cmd": "pepper-compiler t"})
+    pk.finish(tier)
     res.programs = res.evaluations
     if drv is not None and reqs:
         got = drv.call_many(reqs)
